@@ -29,6 +29,14 @@ Theorem C09_acc_needs_prior_not_pinf :
 Proof. exact acc_needs_prior_not_pinf. Qed.
 Print Assumptions C09_acc_needs_prior_not_pinf.
 
+(* the code before the fix: commit (z not masked with isfinite(log_prob), strict = true) aborts with IndexError a
+   population that the repaired code (strict = false) completes - replayed on a repo copy with the fix reverted *)
+Theorem C09_backward_pass_z_unmasked_refuted :
+  flow_populate exact_sub true None 1 z_unmasked_witness = Raised /\
+  flow_populate exact_sub false None 1 z_unmasked_witness = Done ([w_cand 0 (Fin (-2) 0)], 0).
+Proof. exact backward_pass_z_unmasked_refuted. Qed.
+Print Assumptions C09_backward_pass_z_unmasked_refuted.
+
 (* RejectionProposal.populate: accepted points have a finite log-prior; at most N of them *)
 Theorem C09_pool_in_support_rejection : forall sub cs us pool,
   rej_populate sub cs us = Some pool ->
@@ -133,7 +141,7 @@ Theorem C09_rejection_identity : forall (wmax : Q) (l : list (Q * Q)) (x : Q * Q
 Proof. exact rejection_identity. Qed.
 Print Assumptions C09_rejection_identity.
 
-(* non-vacuity: a population that filters (non-finite log_q is only allowed in the non-strict class), rejects and fills *)
+(* non-vacuity: a population that filters (strict = false is today's code, strict = true the pre-fix variant), rejects and fills *)
 Example C09_nonvacuous :
   let c i q b p := {| cid := i; lq := q; lj := Fin 0 0; inb := b; lp := p |} in
   let b1 := {| cands := [c 0%nat (Fin (-1) 0) true (Fin (-2) 0); c 1%nat NaN true (Fin (-2) 0);
